@@ -282,6 +282,7 @@ func (m *LifeMon) OnEvent(c *eng.Ctx, ms eng.MState, ev *eng.Event) eng.MState {
 	case "call":
 		switch ev.Class {
 		case "ctx.Err":
+			chk("C02.R8,C11.R6", ev.Recv == nil || m.Ctx == nil || ev.Recv == m.Ctx, "cancellation is observed on "+prettyT(ev.Recv)+", not on the run's own context: something other than the caller's cancellation can cut attempts short (or the caller's cancellation can be missed)")
 			if len(ev.Results) > 0 {
 				if s.cutAny && !batch || s.cut {
 					// context contract (A2): once done, Err() stays non-nil
@@ -291,6 +292,7 @@ func (m *LifeMon) OnEvent(c *eng.Ctx, ms eng.MState, ev *eng.Event) eng.MState {
 				s.obs, s.fresh, s.cut = ev.Results[0], false, wasCut
 			}
 		case "ctx.Done":
+			chk("C02.R8,C11.R6", ev.Recv == nil || m.Ctx == nil || ev.Recv == m.Ctx, "the wait listens on "+prettyT(ev.Recv)+", not on the run's own context")
 			if len(ev.Results) > 0 {
 				s.done = appendUniq(s.done, ev.Results[0], 3)
 			}
@@ -727,4 +729,11 @@ func (m *LifeMon) onReturn(c *eng.Ctx, s lifeState, ev *eng.Event, batch bool) {
 func isStringConst(t *eng.Term) bool {
 	_, ok := t.StringConst()
 	return ok
+}
+
+func prettyT(t *eng.Term) string {
+	if t == nil {
+		return "<nil>"
+	}
+	return t.Pretty()
 }
